@@ -77,3 +77,6 @@ func DeepEqual(a, b interface{}) bool { return false }
 // ShortReads: from now on the (modelled) decompressing reader may return
 // fewer bytes than asked for, as the io.Reader contract allows (engine only).
 func ShortReads(on bool) {}
+
+// SSTCuts: whether sstable.Writer.EstimatedSize returns arbitrary (non-decreasing) values, so a size cut can fall anywhere.
+func SSTCuts(on bool) {}
